@@ -127,9 +127,12 @@ func BFS[I any](c *Ctx, m *Machine[I]) bfsStats {
 						c.Violation(key, fmt.Sprintf("[%s] after %v then %s: %s", m.Name, names, name, detail),
 							histCase{Machine: m.Name, History: nh, Ops: append(append([]string{}, names...), name)}, len(nh))
 					}
-					// a state reached through a violating transition is not expanded: its
-					// reference model is no longer meaningful
-					continue
+					// a state reached through a panicking transition is not expanded (the
+					// instance may be poisoned); other violating transitions are, so that a
+					// known finding does not hide the states behind it
+					if hasPanic(bad) {
+						continue
+					}
 				}
 				r.keys = append(r.keys, m.Key(in))
 				r.hists = append(r.hists, append(append([]int{}, h...), op))
@@ -152,7 +155,7 @@ func BFS[I any](c *Ctx, m *Machine[I]) bfsStats {
 			complete = false
 			break
 		}
-		if m.MaxStates > 0 && st.States > m.MaxStates {
+		if (m.MaxStates > 0 && st.States > m.MaxStates) || st.States > 400000 {
 			complete = false
 			break
 		}
@@ -195,4 +198,13 @@ func replayHistory[I any](c *Ctx, m *Machine[I], hist []int) {
 			return
 		}
 	}
+}
+
+func hasPanic(bad []string) bool {
+	for _, b := range bad {
+		if len(b) >= 6 && b[:6] == "panic:" {
+			return true
+		}
+	}
+	return false
 }
